@@ -811,6 +811,157 @@ impl Scenario for WindowClosesMidHandshake {
     }
 }
 
+/// C02: the window's time runs out while another commissioner's handshake is between two of its
+/// steps. No PASE session may come into existence after the expiry, and the window is closed and
+/// no longer advertised one polling period later - also when a handshake was in progress.
+pub struct WindowExpiresMidHandshake {
+    pub faults: bool,
+}
+
+impl Scenario for WindowExpiresMidHandshake {
+    fn property(&self) -> &'static str {
+        "C02"
+    }
+    fn name(&self) -> &'static str {
+        if self.faults {
+            "window-expires-mid-handshake-delays"
+        } else {
+            "window-expires-mid-handshake"
+        }
+    }
+
+    fn run(&self, seed: u64) -> Outcome {
+        const T_OPEN_MS: u32 = 5_000;
+        const WINDOW_S: u16 = 180;
+        let latency = 500 + tape::choose(8) as u64 * 500;
+        // The handshake is three round trips; it starts between 14 latencies before and 4 after the
+        // expiry, once or several times in a row (the later ones find the window expired)
+        let delta = tape::choose(72) as i64 - 56;
+        let t_b = (T_OPEN_MS as i64 + WINDOW_S as i64 * 1000 + delta * (latency as i64) / 4000) as u32;
+        let attempts = 1 + tape::choose(3);
+        let a_script = vec![
+            CtlStep::Commission { dev: 0 },
+            CtlStep::SleepUntil { ms: T_OPEN_MS },
+            CtlStep::OpenWindow { dev: 0, secs: WINDOW_S },
+            CtlStep::ReadOnOff { dev: 0 },
+            CtlStep::SleepUntil { ms: T_OPEN_MS + WINDOW_S as u32 * 1000 + 5_000 },
+            CtlStep::ReadOnOff { dev: 0 },
+        ];
+        let mut b_script = vec![CtlStep::SleepUntil { ms: t_b }];
+        for _ in 0..attempts {
+            b_script.push(CtlStep::PaseAttempt { dev: 0, passcode: GOOD });
+        }
+        b_script.push(CtlStep::Sleep { ms: 3_000 });
+        let net = UniformNet {
+            latency_us: latency,
+            jitter_us: if self.faults { [0, 500, 2000][tape::choose(3) as usize] } else { 0 },
+            hold_permille: if self.faults { [0, 100, 300][tape::choose(3) as usize] } else { 0 },
+            hold_max_ms: 8,
+            ..Default::default()
+        };
+        let cfg = FullCfg {
+            n_devices: 1,
+            controllers: vec![
+                CtlSpec { fabric_id: 1, node_id: 0x1000, script: a_script, continue_on_error: true },
+                CtlSpec { fabric_id: 2, node_id: 0x2000, script: b_script, continue_on_error: true },
+            ],
+            handlers: 3,
+            net,
+            sched: SchedCfg {
+                nonfifo_permille: if self.faults { [0, 100, 300][tape::choose(3) as usize] } else { 0 },
+                max_polls: 3_000_000,
+                max_time: 1_000 * SEC,
+                ..Default::default()
+            },
+            limit_us: 600 * SEC,
+            kv_faults: vec![],
+            crashes: vec![],
+            restart_after_us: 300 * MS,
+            cancels: vec![],
+            calm_at_us: None,
+        };
+        // (time of the observation before, time, window open, advertised, ids of the live PASE sessions)
+        let mut series: Vec<(u64, u64, bool, bool, Vec<u32>)> = Vec::new();
+        let mut last_probe = 0u64;
+        let t_exp_nominal = (T_OPEN_MS as u64 + WINDOW_S as u64 * 1000) * MS;
+        set_fine_probe(Some((t_exp_nominal - 200 * MS, t_exp_nominal + 1_500 * MS + 120 * latency, 200)));
+        let run = drive_full_with(seed, cfg, &mut |t, states| {
+            if let Some(Some(st)) = states.first() {
+                let pase: Vec<u32> = st
+                    .snap
+                    .sessions
+                    .iter()
+                    // (a session is made a PASE session when the proof was accepted; it stays
+                    // "reserved" until the status report was acknowledged)
+                    .filter(|s| !s.expired && matches!(s.mode, SessionMode::Pase { .. }))
+                    .map(|s| s.id)
+                    .collect();
+                if series.last().map(|(_, _, w, a, p)| (*w, *a, p) != (st.window_open, st.commissionable_advertised, &pase)).unwrap_or(true) {
+                    series.push((last_probe, t, st.window_open, st.commissionable_advertised, pase));
+                }
+                last_probe = t;
+            }
+        });
+        let mut out = Outcome::default();
+        common_counters(&run, &mut out);
+        let a = results(&run, 1);
+        let b = results(&run, 2);
+        // The window was opened somewhere between the start and the end of A's step
+        let t_open_end = a.iter().find(|(n, c, _)| *n == "open_window" && *c == 0xffff).map(|(_, _, t)| *t);
+        let commissioned = a.iter().any(|(n, c, _)| *n == "commission" && *c == 0xffff) && t_open_end.is_some();
+        let describe = || {
+            format!(
+                "latency {latency} us; A {:?}; B {:?}; device (t us, window open, advertised, live PASE sessions): {:?}",
+                a.iter().filter(|(n, _, _)| *n != "sleep").map(|(n, c, t)| format!("{n}:{c:x}@{t}")).collect::<Vec<_>>(),
+                b.iter().filter(|(n, _, _)| *n != "sleep").map(|(n, c, t)| format!("{n}:{c:x}@{t}")).collect::<Vec<_>>(),
+                series.iter().filter(|(_, t, ..)| *t > t_exp_nominal - 500 * MS).collect::<Vec<_>>()
+            )
+        };
+        if let (true, Some(t_open_end)) = (run.all_done && commissioned, t_open_end) {
+            out.count("c02_expiries_near_a_handshake", 1);
+            // Latest possible expiry instant: the device opened the window before A's step ended
+            // (logged with the resolution of the 1 ms clock tick, as is the device's own notion
+            // of the opening and of "now": two ticks of allowance)
+            let t_exp = t_open_end + WINDOW_S as u64 * SEC + 2 * MS;
+            let mut known: std::collections::BTreeSet<u32> = std::collections::BTreeSet::new();
+            for (prev_t, _t, _w, _adv, pase) in &series {
+                for id in pase {
+                    // Not there at the previous observation: it came into existence after `prev_t`
+                    if known.insert(*id) && *prev_t > t_exp {
+                        out.violate(
+                            "C02-session-after-window-expired",
+                            format!("PASE session {id} came into existence after t={prev_t} us, the window expired at t={t_exp} us at the latest; {}", describe()),
+                        );
+                    }
+                }
+            }
+            // State at t_exp + 1.3 s (the state holds from its observation to the next one)
+            let t_chk = t_exp + 1_300 * MS;
+            // One polling period (1 s) and some slack after the expiry nothing is open or advertised
+            if let Some((_, _, w, adv, _)) = series.iter().rev().find(|(_, t, ..)| *t <= t_chk) {
+                if *w || *adv {
+                    out.violate(
+                        "C02-window-open-past-expiry",
+                        format!("at t={t_chk} us (expiry at t={t_exp} us at the latest, polling period 1 s) window open={w} advertised={adv}; {}", describe()),
+                    );
+                }
+            }
+            if b.iter().any(|(n, c, _)| *n == "pase_attempt" && *c == 0xffff) {
+                out.count("c02_handshakes_completed_next_to_expiry", 1);
+            } else {
+                out.count("c02_handshakes_refused_next_to_expiry", 1);
+            }
+        } else {
+            out.count("runs_incomplete", 1);
+        }
+        out.nontrivial = commissioned;
+        out.state_sigs.push((delta + 100) as u64);
+        out.sample = Some(json!({"latency_us": latency, "pase_at_ms": t_b, "attempts": attempts,
+            "B": b.iter().filter(|(n, _, _)| *n != "sleep").map(|(n, c, t)| format!("{n}:{c:x}@{t}")).collect::<Vec<_>>()}));
+        out
+    }
+}
+
 pub fn defs() -> Vec<PropertyDef> {
     let storm = |which: Which, id: &'static str, rule: &'static str| PropertyDef {
         id,
@@ -840,11 +991,13 @@ pub fn defs() -> Vec<PropertyDef> {
     let mut c02 = storm(
             Which::C02,
             "C02",
-            "one run = a device with an open basic commissioning window and 2-4 initiators plus a final honest probe: right or wrong passcode (up to 25 wrong attempts in a row), full commissioning or PASE only, abandoned (task cancelled) at a tape-chosen microsecond, device handlers cancelled, on-path single-bit/byte/truncate/extend mutation and replay of handshake datagrams, loss/duplication/delay; invariants on every 100 ms device probe (PASE session only for a peer that knows the passcode, advertisement iff window open, failure counter <= 20); further families: the confirmation value of every Pake3 of a commissioner that knows the passcode is corrupted on the path (21-24 attempts: no session, window revoked after 20 failed proofs); the administrator revokes the window within a few network latencies of another commissioner's handshake (device probed every 100 us: no PASE session appears after the window was seen closed); distinct = distinct trace hash; non-trivial = > 20 datagrams and a fault fired",
+            "one run = a device with an open basic commissioning window and 2-4 initiators plus a final honest probe: right or wrong passcode (up to 25 wrong attempts in a row), full commissioning or PASE only, abandoned (task cancelled) at a tape-chosen microsecond, device handlers cancelled, on-path single-bit/byte/truncate/extend mutation and replay of handshake datagrams, loss/duplication/delay; invariants on every 100 ms device probe (PASE session only for a peer that knows the passcode, advertisement iff window open, failure counter <= 20); further families: the confirmation value of every Pake3 of a commissioner that knows the passcode is corrupted on the path (21-24 attempts: no session, window revoked after 20 failed proofs); the administrator revokes the window within a few network latencies of another commissioner's handshake (device probed every 100 us: no PASE session appears after the window was seen closed); the window's 180 s run out within a few network latencies of one to three handshakes of another commissioner (device probed every 200 us: no PASE session comes into existence after the expiry, the window is closed and no longer advertised one polling period later); distinct = distinct trace hash; non-trivial = > 20 datagrams and a fault fired",
         );
     c02.families.push(Family { scenario: Box::new(Pake3Corrupted), weight: 1, fault_free: false });
     c02.families.push(Family { scenario: Box::new(WindowClosesMidHandshake { faults: false }), weight: 2, fault_free: false });
     c02.families.push(Family { scenario: Box::new(WindowClosesMidHandshake { faults: true }), weight: 2, fault_free: false });
+    c02.families.push(Family { scenario: Box::new(WindowExpiresMidHandshake { faults: false }), weight: 2, fault_free: false });
+    c02.families.push(Family { scenario: Box::new(WindowExpiresMidHandshake { faults: true }), weight: 2, fault_free: false });
     vec![
         c02,
         storm(
